@@ -72,22 +72,18 @@ theorem unknown_tables {ty : String} (h : ¬ Known ty) : constructionsOf ty = .e
 /-! ## the option loop, one round at a time -/
 
 theorem badOption_known {ty : String} (h : Known ty) (dot : Bool) (name : String) :
-    badOption dot ty name = if name = "" then .indexError else .valueError := by
+    badOption dot ty name = .valueError := by
   obtain ⟨hc, hf, _, _, _⟩ := known_tables h dot
   unfold badOption
-  cases hn : name.toList with
-  | nil => rw [String.toList_eq_nil_iff] at hn; simp [hn]
-  | cons c cs =>
-    have : name ≠ "" := by intro h0; rw [h0] at hn; simp at hn
-    simp only [this, if_false, hf, hc]
-    split <;> rfl
+  simp only [hf, hc]
+  split <;> rfl
 
 /-- one round of the loop for a graph type of the tables -/
 theorem optionLoop_succ {ty : String} (h : Known ty) (dot : Bool) (f : Nat) (res : Parsed) (name : String)
     (rest : List String) :
     optionLoop dot ty (f + 1) res (name :: rest) =
       if name ∈ typeNames then .error .valueError
-      else if name ∉ optL ty then .error (if name = "" then .indexError else .valueError)
+      else if name ∉ optL ty then .error .valueError
       else if name ∈ res.keys then .error .valueError
       else if name = "save" then
         match rest with
@@ -168,7 +164,7 @@ theorem loop_nil (dot : Bool) (ty : String) (res : Parsed) : loop dot ty res [] 
 theorem loop_cons {ty : String} (h : Known ty) (dot : Bool) (res : Parsed) (name : String) (rest : List String) :
     loop dot ty res (name :: rest) =
       if name ∈ typeNames then .error .valueError
-      else if name ∉ optL ty then .error (if name = "" then .indexError else .valueError)
+      else if name ∉ optL ty then .error .valueError
       else if name ∈ res.keys then .error .valueError
       else if name = "save" then
         match rest with
@@ -226,11 +222,11 @@ theorem parse_cons {ty : String} (h : Known ty) (dot : Bool) (s0 : String) (rest
 
 theorem parse_nil (ty : String) (dot : Bool) : parseGraphArgument ty [] dot = .error .valueError := rfl
 
-/-! ## (a) the only exceptions -/
+/-! ## (a) the only exception is ValueError -/
 
 theorem loop_only {ty : String} (h : Known ty) (dot : Bool) :
     ∀ (n : Nat) (toks : List String) (res : Parsed) (e : Err), toks.length ≤ n →
-      loop dot ty res toks = .error e → e = .valueError ∨ (e = .indexError ∧ "" ∈ toks) := by
+      loop dot ty res toks = .error e → e = .valueError := by
   intro n
   induction n with
   | zero =>
@@ -245,77 +241,53 @@ theorem loop_only {ty : String} (h : Known ty) (dot : Bool) :
       have hl' : rest.length ≤ n := by simpa using hl
       rw [loop_cons h] at he
       split at he
-      · cases he; exact Or.inl rfl
+      · cases he; rfl
       split at he
-      · by_cases hn : name = ""
-        · simp only [hn, if_true] at he; cases he; exact Or.inr ⟨rfl, by simp [hn]⟩
-        · simp only [hn, if_false] at he; cases he; exact Or.inl rfl
+      · cases he; rfl
       split at he
-      · cases he; exact Or.inl rfl
+      · cases he; rfl
       split at he
       · cases rest with
-        | nil => cases he; exact Or.inl rfl
+        | nil => cases he; rfl
         | cons t rest' =>
           simp only [] at he
           split at he
           · cases rest' with
-            | nil => cases he; exact Or.inl rfl
-            | cons fn rest'' =>
-              rcases ih rest'' _ e (by simp at hl'; omega) he with h1 | ⟨h1, h2⟩
-              · exact Or.inl h1
-              · exact Or.inr ⟨h1, by simp [h2]⟩
-          · rcases ih rest' _ e (by simp at hl'; omega) he with h1 | ⟨h1, h2⟩
-            · exact Or.inl h1
-            · exact Or.inr ⟨h1, by simp [h2]⟩
+            | nil => cases he; rfl
+            | cons fn rest'' => exact ih rest'' _ e (by simp at hl'; omega) he
+          · exact ih rest' _ e (by simp at hl'; omega) he
       · have hs : rest.dropWhile isFloat <:+ rest := List.dropWhile_suffix _
-        rcases ih _ _ e (Nat.le_trans hs.length_le hl') he with h1 | ⟨h1, h2⟩
-        · exact Or.inl h1
-        · exact Or.inr ⟨h1, List.mem_cons_of_mem _ (hs.subset h2)⟩
+        exact ih _ _ e (Nat.le_trans hs.length_le hl') he
 
-/-- (a) CLEANLINESS.  For a graph type of the tables and EVERY token list, `parse_graph_argument`
-returns a dictionary or raises `ValueError` — or `IndexError`, and then the empty string is one
-of the words after the first (the code looks at `optionname[0]`) -/
-theorem parse_only_valueError_or_indexError {ty : String} (h : Known ty) (dot : Bool) (toks : List String) (e : Err)
-    (he : parseGraphArgument ty toks dot = .error e) :
-    e = .valueError ∨ (e = .indexError ∧ "" ∈ toks.tail) := by
+/-- (a) CLEANLINESS, full strength.  For a graph type of the tables and EVERY token list,
+`parse_graph_argument` returns a dictionary or raises `ValueError`; nothing else.
+(False before the fix 4e949d4 of finding C15-S1: the empty word in option position raised `IndexError`;
+see `parse_empty_word_regression`.) -/
+theorem parse_only_valueError {ty : String} (h : Known ty) (dot : Bool) (toks : List String) (e : Err)
+    (he : parseGraphArgument ty toks dot = .error e) : e = .valueError := by
   cases toks with
-  | nil => cases he; exact Or.inl rfl
+  | nil => cases he; rfl
   | cons s0 rest =>
     rw [parse_cons h] at he
-    simp only [List.tail_cons]
     split at he
-    · have hs : rest.dropWhile isFloat <:+ rest := List.dropWhile_suffix _
-      rcases loop_only h dot _ _ _ e (Nat.le_refl _) he with h1 | ⟨h1, h2⟩
-      · exact Or.inl h1
-      · exact Or.inr ⟨h1, hs.subset h2⟩
+    · exact loop_only h dot _ _ _ e (Nat.le_refl _) he
     split at he
     · cases rest with
-      | nil => cases he; exact Or.inl rfl
-      | cons fn rest' =>
-        rcases loop_only h dot _ _ _ e (Nat.le_refl _) he with h1 | ⟨h1, h2⟩
-        · exact Or.inl h1
-        · exact Or.inr ⟨h1, List.mem_cons_of_mem _ h2⟩
+      | nil => cases he; rfl
+      | cons fn rest' => exact loop_only h dot _ _ _ e (Nat.le_refl _) he
     split at he
-    · cases he; exact Or.inl rfl
+    · cases he; rfl
     split at he
-    · cases he; exact Or.inl rfl
+    · cases he; rfl
     · exact loop_only h dot _ _ _ e (Nat.le_refl _) he
 
-/-- the `IndexError` is reachable, with two words: a file name followed by the empty string
-(`cnfgen kclique 3 x ''` ends in a traceback).  No one-word list reaches it (`parse_one_word`). -/
-theorem parse_indexError_witness :
-    parseGraphArgument "simple" ["x", ""] = .error .indexError ∧
-    parseGraphArgument "simple" ["gnp", ""] = .error .indexError ∧
-    parseGraphArgument "bipartite" ["glrd", "1", "2", "3", "addedges", "", "save", "x"] = .error .indexError ∧
-    parseGraphArgument "dag" ["x", ""] false = .error .indexError := by decide
-
-/-- a single word never raises `IndexError` -/
-theorem parse_one_word {ty : String} (h : Known ty) (dot : Bool) (w : String) :
-    parseGraphArgument ty [w] dot ≠ .error .indexError := by
-  intro he
-  rcases parse_only_valueError_or_indexError h dot _ _ he with h1 | ⟨_, h2⟩
-  · cases h1
-  · simp at h2
+/-- regression of C15-S1: the token lists on which the old code (`optionname[0]`) raised `IndexError`
+are refused with `ValueError` -/
+theorem parse_empty_word_regression :
+    parseGraphArgument "simple" ["x", ""] = .error .valueError ∧
+    parseGraphArgument "simple" ["gnp", ""] = .error .valueError ∧
+    parseGraphArgument "bipartite" ["glrd", "1", "2", "3", "addedges", "", "save", "x"] = .error .valueError ∧
+    parseGraphArgument "dag" ["x", ""] false = .error .valueError := by decide
 
 /-- a graph type that is not a key of the tables: `ValueError` for the empty list, otherwise the
 `KeyError` of `constructions[graphtype]` (the command line only uses `simple`, `bipartite`, `dag`) -/
@@ -325,21 +297,19 @@ theorem parse_unknown_type {ty : String} (h : ¬ Known ty) (dot : Bool) (toks : 
   | nil => rfl
   | cons s0 rest => unfold parseGraphArgument; rw [unknown_tables h]; rfl
 
-/-- in particular the fuel guard of the model (`RuntimeError`) is never the answer -/
+/-- all outcomes, any graph type: a dictionary, `ValueError`, or — unknown graph type only — `KeyError`;
+in particular the fuel guard of the model (`RuntimeError`) is never the answer -/
 theorem parse_total (ty : String) (dot : Bool) (toks : List String) :
     (∃ p, parseGraphArgument ty toks dot = .ok p) ∨ parseGraphArgument ty toks dot = .error .valueError ∨
-    parseGraphArgument ty toks dot = .error .indexError ∨ parseGraphArgument ty toks dot = .error .keyError := by
+    (¬ Known ty ∧ parseGraphArgument ty toks dot = .error .keyError) := by
   by_cases h : Known ty
   · cases hp : parseGraphArgument ty toks dot with
     | ok p => exact Or.inl ⟨p, rfl⟩
-    | error e =>
-      rcases parse_only_valueError_or_indexError h dot toks e hp with h1 | ⟨h1, _⟩
-      · exact Or.inr (Or.inl (by rw [h1]))
-      · exact Or.inr (Or.inr (Or.inl (by rw [h1])))
+    | error e => rw [parse_only_valueError h dot toks e hp]; exact Or.inr (Or.inl rfl)
   · rw [parse_unknown_type h]
     by_cases ht : toks = []
     · simp [ht]
-    · simp [ht]
+    · simp [ht, h]
 
 /-! ## what follows an accepted prefix -/
 
@@ -436,18 +406,6 @@ theorem span_numerals {tail : List String} (hx : HeadNotNumeral tail) :
     simp only [List.cons_append, List.takeWhile_cons, List.dropWhile_cons, ha, if_true]
     exact ⟨by rw [this.1], this.2⟩
 
-theorem head_dropWhile (rest : List String) : HeadNotNumeral (rest.dropWhile isFloat) := by
-  intro t ht
-  have := List.head?_dropWhile_not isFloat rest
-  rw [ht] at this
-  exact this
-
-theorem headNotNumeral_of_append {pre post : List String} (h : HeadNotNumeral (pre ++ post)) (hp : pre ≠ []) :
-    HeadNotNumeral pre := by
-  cases pre with
-  | nil => exact absurd rfl hp
-  | cons a pre' => intro t ht; exact h t (by simpa using ht)
-
 theorem headNotNumeral_empty_word (post : List String) : HeadNotNumeral ("" :: post) := by
   intro t ht
   simp at ht
@@ -455,75 +413,11 @@ theorem headNotNumeral_empty_word (post : List String) : HeadNotNumeral ("" :: p
 
 theorem empty_word_not_a_type : "" ∉ typeNames := by decide
 
-/-- the empty word in option position -/
+/-- the empty word in option position is refused -/
 theorem loop_empty_word {ty : String} (h : Known ty) (dot : Bool) (res : Parsed) (post : List String) :
-    loop dot ty res ("" :: post) = .error .indexError := by
+    loop dot ty res ("" :: post) = .error .valueError := by
   obtain ⟨_, _, _, hw, _⟩ := known_tables h dot
   rw [loop_cons h, if_neg empty_word_not_a_type, if_pos (fun hm => (hw "" hm).2.2.2 rfl)]
-  rfl
-
-/-- where the `IndexError` of the loop comes from: an accepted prefix followed by the empty word -/
-theorem loop_indexError {ty : String} (h : Known ty) (dot : Bool) :
-    ∀ (n : Nat) (toks : List String) (res : Parsed), toks.length ≤ n →
-      loop dot ty res toks = .error .indexError →
-      ∃ pre post p, toks = pre ++ "" :: post ∧ loop dot ty res pre = .ok p := by
-  intro n
-  induction n with
-  | zero =>
-    intro toks res hl he
-    have : toks = [] := List.length_eq_zero_iff.mp (Nat.le_zero.mp hl)
-    subst this; rw [loop_nil] at he; cases he
-  | succ n ih =>
-    intro toks res hl he
-    cases toks with
-    | nil => rw [loop_nil] at he; cases he
-    | cons name rest =>
-      have hl' : rest.length ≤ n := by simpa using hl
-      have hstep := loop_cons h dot res name rest
-      rw [hstep] at he
-      split at he; · cases he
-      rename_i h1
-      split at he
-      · by_cases hn : name = ""
-        · exact ⟨[], rest, res, by simp [hn], loop_nil _ _ _⟩
-        · simp only [hn, if_false] at he; cases he
-      rename_i h2
-      split at he; · cases he
-      rename_i h3
-      split at he
-      · rename_i h4
-        cases rest with
-        | nil => cases he
-        | cons t rest' =>
-          simp only [] at he
-          split at he
-          · rename_i h5
-            cases rest' with
-            | nil => cases he
-            | cons fn rest'' =>
-              obtain ⟨pre, post, p, heq, hp⟩ := ih rest'' _ (by simp at hl'; omega) he
-              refine ⟨name :: t :: fn :: pre, post, p, by simp [heq], ?_⟩
-              rw [loop_cons h, if_neg h1, if_neg h2, if_neg h3, if_pos h4]
-              simp only []
-              rw [if_pos h5]; exact hp
-          · rename_i h5
-            obtain ⟨pre, post, p, heq, hp⟩ := ih rest' _ (by simp at hl'; omega) he
-            refine ⟨name :: t :: pre, post, p, by simp [heq], ?_⟩
-            rw [loop_cons h, if_neg h1, if_neg h2, if_neg h3, if_pos h4]
-            simp only []
-            rw [if_neg h5]; exact hp
-      · rename_i h4
-        obtain ⟨pre, post, p, heq, hp⟩ :=
-          ih _ _ (Nat.le_trans (List.dropWhile_suffix _).length_le hl') he
-        refine ⟨name :: (rest.takeWhile isFloat ++ pre), post, p, ?_, ?_⟩
-        · rw [List.cons_append, List.append_assoc, ← heq, List.takeWhile_append_dropWhile]
-        · have hx : HeadNotNumeral pre := by
-            by_cases hp0 : pre = []
-            · subst hp0; intro t ht; simp at ht
-            · exact headNotNumeral_of_append (heq ▸ head_dropWhile rest) hp0
-          have hs := span_numerals hx (rest.takeWhile isFloat) (takeWhile_all isFloat rest)
-          rw [loop_cons h, if_neg h1, if_neg h2, if_neg h3, if_neg h4, hs.1, hs.2]
-          exact hp
 
 /-- CONTINUATION for the parser: an accepted list followed by words that do not start with a numeral is
 parsed by continuing the option loop from the accepted request -/
@@ -551,48 +445,13 @@ theorem parse_append {ty : String} (h : Known ty) (dot : Bool) {ext : List Strin
     rename_i h4; rw [if_neg h4]
     exact loop_append h dot hx _ _ _ _ (Nat.le_refl _) hp
 
-/-- (a, exact) the `IndexError` is raised for exactly the token lists that consist of an ACCEPTED list, the
-empty word, and anything after it -/
-theorem parse_indexError_iff {ty : String} (h : Known ty) (dot : Bool) (toks : List String) :
-    parseGraphArgument ty toks dot = .error .indexError ↔
-      ∃ pre post p, toks = pre ++ "" :: post ∧ parseGraphArgument ty pre dot = .ok p := by
-  constructor
-  · intro he
-    cases toks with
-    | nil => cases he
-    | cons s0 rest =>
-      rw [parse_cons h] at he
-      split at he
-      · rename_i h1
-        obtain ⟨pre, post, p, heq, hp⟩ := loop_indexError h dot _ _ _ (Nat.le_refl _) he
-        refine ⟨s0 :: (rest.takeWhile isFloat ++ pre), post, p, ?_, ?_⟩
-        · rw [List.cons_append, List.append_assoc, ← heq, List.takeWhile_append_dropWhile]
-        · have hx : HeadNotNumeral pre := by
-            by_cases hp0 : pre = []
-            · subst hp0; intro t ht; simp at ht
-            · exact headNotNumeral_of_append (heq ▸ head_dropWhile rest) hp0
-          have hs := span_numerals hx (rest.takeWhile isFloat) (takeWhile_all isFloat rest)
-          rw [parse_cons h, if_pos h1, hs.1, hs.2]; exact hp
-      rename_i h1
-      split at he
-      · rename_i h2
-        cases rest with
-        | nil => cases he
-        | cons fn rest' =>
-          obtain ⟨pre, post, p, heq, hp⟩ := loop_indexError h dot _ _ _ (Nat.le_refl _) he
-          refine ⟨s0 :: fn :: pre, post, p, by simp [heq], ?_⟩
-          rw [parse_cons h, if_neg h1, if_pos h2]; exact hp
-      rename_i h2
-      split at he; · cases he
-      rename_i h3
-      split at he; · cases he
-      rename_i h4
-      obtain ⟨pre, post, p, heq, hp⟩ := loop_indexError h dot _ _ _ (Nat.le_refl _) he
-      refine ⟨s0 :: pre, post, p, by simp [heq], ?_⟩
-      rw [parse_cons h, if_neg h1, if_neg h2, if_neg h3, if_neg h4]; exact hp
-  · rintro ⟨pre, post, p, heq, hp⟩
-    rw [heq, parse_append h dot (headNotNumeral_empty_word post) pre p hp]
-    exact loop_empty_word h dot p post
+/-- regression of C15-S1, in general: an ACCEPTED list followed by the empty word and anything (exactly the
+lists on which the old code raised `IndexError`) is refused with `ValueError` -/
+theorem parse_empty_word_refused {ty : String} (h : Known ty) (dot : Bool) (pre post : List String) (p : Parsed)
+    (hp : parseGraphArgument ty pre dot = .ok p) :
+    parseGraphArgument ty (pre ++ "" :: post) dot = .error .valueError := by
+  rw [parse_append h dot (headNotNumeral_empty_word post) pre p hp]
+  exact loop_empty_word h dot p post
 
 /-! ## (b) the shape of an accepted request -/
 
